@@ -524,3 +524,6 @@ func TestReplay(t *testing.T) {
 	vt.Register(prop)
 	vt.Replay(t)
 }
+
+// FuzzGenerated drives the property's generator from coverage-guided fuzz input (thorough tier).
+func FuzzGenerated(f *testing.F) { vt.Fuzz(f, prop) }
